@@ -27,7 +27,9 @@ RULE = (
     "entry points x spec field x argument order: every public function taking >= 2 arrays (listed in ENTRY_POINTS, cross-checked "
     "against the public namespaces by signature introspection) x each of the 7 Spec fields differing alone x both orders, plus "
     "compute/plan/visualize/store of several arrays; literals: ints, floats, unit strings with spaces/fractions/exponents, huge "
-    "and tiny values (realistic stratum: <= 15 significant digits and <= 1 PB; extreme stratum beyond), malformed strings. "
+    "and tiny values (realistic stratum: <= 15 significant digits and <= 1 PB; extreme stratum beyond), malformed strings; "
+    "arrays that take their Spec from cubed.config: 8 config fields differing alone x both creation orders (configured value "
+    "carried by the Spec and by plan budgets, no silent mixing). "
     "Non-trivial = a mixed-spec call was judged / a well-formed non-integer-looking literal was compared; distinct by hash"
 )
 ASSUMPTIONS = [
@@ -322,6 +324,75 @@ def judge_mixing(name, fn, field, order, wd, res):
     return [{"kind": "mixed-specs-accepted", "msg": f"{name} accepted arrays whose specs differ in {field} (argument order {order})", "facts": case, "case": case}]
 
 
+CONFIG_FIELDS = ["work_dir", "intermediate_store", "allowed_mem", "reserved_mem", "executor_name", "executor_options", "storage_options", "zarr_compressor"]
+
+
+def judge_config_specs(field, order, wd, res):
+    """Arrays that take their Spec from cubed.config (no spec= argument): the Spec must carry the configured
+    values, and arrays created under configurations that differ in one field must not be combined silently."""
+    import cubed
+    import cubed.array_api as xp
+
+    base = {"spec.work_dir": os.path.join(wd, "w"), "spec.allowed_mem": "1GB", "spec.reserved_mem": "10MB"}
+    other = dict(base)
+    val = {"work_dir": os.path.join(wd, "w2"), "intermediate_store": os.path.join(wd, "istore"), "allowed_mem": "2GB", "reserved_mem": "20MB",
+           "executor_name": "single-threaded", "executor_options": {"max_workers": 3}, "storage_options": {"use_obstore": False},
+           "zarr_compressor": None}[field]
+    other["spec." + field] = val
+    if field == "executor_options":
+        base["spec.executor_name"] = other["spec.executor_name"] = "threads"
+    d = np.arange(12.0).reshape(3, 4) + 1
+    made = {}
+    for which in (("base", "other") if order == 0 else ("other", "base")):
+        with cubed.config.set(base if which == "base" else other):
+            made[which] = xp.asarray(d if which == "base" else d * 2, chunks=(2, 2))
+    a, b = made["base"], made["other"]
+    res["evaluations"] += 1
+    res["counters"]["config_spec_cases"] += 1
+    case = {"config_field": field, "order": order}
+    res["nontrivial"].append(rhash(case))
+    out = []
+
+    def V(kind, msg):
+        out.append({"kind": kind, "msg": f"spec from cubed.config, field {field}, creation order {order}: {msg}", "facts": dict(case), "case": case})
+
+    # (1) the Spec carries the configured value
+    exp = {"allowed_mem": 2 * 1000**3, "reserved_mem": 20 * 1000**2}.get(field, val)
+    attr = {"executor_name": None, "executor_options": None}.get(field, field)
+    if attr is not None:
+        got = getattr(b.spec, attr)
+        if field in ("work_dir", "intermediate_store", "allowed_mem", "reserved_mem", "zarr_compressor") and got != exp:
+            V("configured-value-ignored", f"configured {val!r} but the array's spec has {got!r}")
+    if field == "executor_name":
+        nm = getattr(getattr(b.spec, "executor", None), "name", None)
+        if nm != "single-threaded":
+            V("configured-value-ignored", f"configured executor_name {val!r} but the array's spec has executor {nm!r}")
+    # (2) the budget of a plan is the configured one
+    if field in ("allowed_mem", "reserved_mem"):
+        fp = xp.sum(b * 2 + b, axis=0).plan()
+        for n, dd in fp.dag.nodes(data=True):
+            op = dd.get("primitive_op")
+            if op is not None and getattr(op, field) != exp:
+                V("op-budget-differs", f"op {n}: {field} {getattr(op, field)} but {val!r} is configured")
+                break
+    # (3) no silent mixing
+    if field != "executor_options" or a.spec != b.spec:
+        pass
+    try:
+        with warnings.catch_warnings():
+            warnings.simplefilter("ignore")
+            xp.add(a, b)
+        V("mixed-specs-accepted", "add() combined arrays created under configurations that differ in this field")
+    except ValueError as e:
+        if "same spec" in str(e):
+            res["counters"]["rejected_explicitly"] += 1
+        else:
+            V("mixed-specs-crash", f"ValueError without the spec message: {str(e)[:120]}")
+    except Exception as e:
+        V("mixed-specs-crash", f"{type(e).__name__}: {str(e)[:120]}")
+    return out
+
+
 def judge_budget(rng, wd, res):
     """The finalized plan's allowed_mem/reserved_mem are the arrays' spec's."""
     import cubed
@@ -354,7 +425,7 @@ def shards(tier, seed):
              "watchdog_s": TIMEOUT[tier] - 30} for i in range(ns)]
 
 
-EXTRA = ("literals", "literals_realistic", "literals_extreme", "literals_malformed", "literals_reject", "literals_accepted",
+EXTRA = ("config_spec_cases", "literals", "literals_realistic", "literals_extreme", "literals_malformed", "literals_reject", "literals_accepted",
          "literals_rejected", "mixed_spec_calls", "rejected_explicitly", "rejected_other_valueerror", "accepted_without_combining",
          "plan_budgets_checked", "contract_evaluations")
 
@@ -377,6 +448,12 @@ def run_shard(spec, workdir):
                     viols += judge_mixing(name, fn, field, order, os.path.join(workdir, f"m{k}"), res)
                     res["sets"]["entry_points"].append(name)
                 k += 1
+    k = 0
+    for field in CONFIG_FIELDS:
+        for order in (0, 1):
+            if k % min(spec["of"], 4) == spec["index"] % 4:
+                viols += judge_config_specs(field, order, os.path.join(workdir, f"c{k}"), res)
+            k += 1
     for i in range(spec["budgets"]):
         viols += judge_budget(rng, os.path.join(workdir, f"b{i}"), res)
     for v in viols:
@@ -395,6 +472,8 @@ def replay(rep, workdir):
     if "literal" in c:
         lit = eval(c["literal"], {"nan": float("nan"), "inf": float("inf")})  # literals are harness-generated reprs
         v = judge_literal(lit, c["stratum"], res)
+    elif "config_field" in c:
+        v = judge_config_specs(c["config_field"], c["order"], os.path.join(workdir, "c"), res)
     elif "entry_point" in c:
         v = judge_mixing(c["entry_point"], entry_points()[c["entry_point"]], c["field"], c["order"], os.path.join(workdir, "m"), res)
     else:
@@ -418,6 +497,7 @@ def finalize(tier, merged):
         "floors": [
             ("size literals judged against the exact parser", c.get("literals", 0), 30000 if tier == "quick" else 1000000),
             ("mixed-spec calls judged (entry point x field x order)", c.get("mixed_spec_calls", 0), 600, ),
+            ("config-derived spec cases (field x creation order)", c.get("config_spec_cases", 0), 16),
             ("icontract evaluations on convert_to_bytes", c.get("contract_evaluations", 0), 20000 if tier == "quick" else 600000),
             ("multi-array public functions found by introspection but not in the entry-point table (must be 0)", -len(missing), 0),
         ],
